@@ -305,6 +305,10 @@ def illformed_catalogue():
         ("<!DOCTYPE r [<!ENTITY e '<a>'>]><r>&e;</a></r>", "start tag in entity, end tag outside"),
         ("<!DOCTYPE r [<!ENTITY e '</a>'>]><r><a>&e;</r>", "end tag in entity"),
         ("<!DOCTYPE r [<!ENTITY e '<b/></r>'>]><r>&e;<x/>", "entity closes the root"),
+        # D22: text inside a quoted literal of a skipped declaration is not markup -- an entity "declared" there is undeclared
+        ("<!DOCTYPE a [<!NOTATION n SYSTEM '><!ENTITY e \"evil\"><!ELEMENT x '>]><a>&e;</a>", "undefined entity reference (its declaration is text inside a system literal)"),
+        ("<!DOCTYPE a [<!ATTLIST a b CDATA \"><!ENTITY e 'evil'><!ELEMENT x \">]><a b='&e;'/>", "undefined entity reference in an attribute (its declaration is text inside a default value)"),
+        ("<!DOCTYPE a [<!ELEMENT a (b')>]><a/>", "unterminated literal in a skipped declaration"),
         ("", "no root element"), ("<!--c-->", "no root element"), ("  ", "no root element"),
         ("<a/><b/>", "two root elements"), ("<a></a><b></b>", "two root elements"),
         ("<a/>t", "character data after the root"), ("t<a/>", "character data before the root"),
@@ -418,6 +422,9 @@ def c08_cases(tier, seed):
         end = ends[di]
         for cut in range(1, end):
             cs.append(Case(s[:cut], "", True, meta={"gen": "truncation", "illformed": "truncated at %d of %d" % (cut, end)}))
+    for s_ in ("<!DOCTYPE a [<!NOTATION n SYSTEM '>'>]><a/>", "<!DOCTYPE a [<!ATTLIST a b CDATA \">\">]><a/>",
+              "<!DOCTYPE a [<!NOTATION n PUBLIC \"a>'b\" '>\">'><!ENTITY e 'v'>]><a>&e;</a>"):
+        cs.append(Case(s_, "", True, meta={"gen": "d22-wellformed", "wellformed": "'>' inside a quoted literal of a skipped declaration"}))
     cs += gens.g_meta(3 if q else 4, embed=True)
     cs += gens.g_tokens(3 if q else 4, flags="")
     cs += gens.g_nonchar()
